@@ -1,14 +1,30 @@
-"""Path-sensitive propagation of small constant domains (a finite set of integer values of one
-atomically loaded state word, plus the booleans computed from it).
+"""Path-sensitive exploration of a function's CFG under a small constant abstraction.
 
-Abstract state at a block = set of environments; an environment maps tracked locals to integers.
-A `load` event forks its destination over the given domain.  Switches on a tracked local follow
-only the matching edge.  Everything else is forgotten (sound: unknown locals take every edge)."""
+Abstract state at a block = set of environments.  An environment maps
+  * plain locals            -> int        (constants, results of comparisons on known values, loaded state word)
+  * ("discr", local, proj)  -> variant name of the enum stored in that place (memo)
+  * ("dsrc", local)         -> (base local, proj)  : `local = discriminant(place)`
+  * ("denum", local)        -> {value: variant name}
+  * ("bsrc", local)         -> (base, proj, name_if_true, name_if_false) : `local = x.is_some()` etc.
+Switches on a known value follow only the matching edge; switches on a discriminant (or on an
+is_some/is_err result) of a not-yet-known place follow every edge but *remember* the variant each
+edge implies, so a second test of the same place is correlated with the first.
+Everything unknown takes every edge (sound over-approximation of feasible paths).
+
+Used for: lifecycle transition source states (C06), `if let Some(doc)` / `doc.is_some()`
+correlations in must-pass-through rules (C01, C02, C04)."""
 from collections import deque
 
 from . import core
 
 OTHER = "other"
+
+_BOOL_TESTS = {
+    "core::option::Option::<T>::is_some": ("Some", "None"),
+    "core::option::Option::<T>::is_none": ("None", "Some"),
+    "core::result::Result::<T, E>::is_ok": ("Ok", "Err"),
+    "core::result::Result::<T, E>::is_err": ("Err", "Ok"),
+}
 
 
 def _operand_val(env, o):
@@ -31,44 +47,113 @@ def _binop(op, a, b):
         return None
 
 
-def _apply_stmts(blk, env):
+def _base_of(fn, place, depth=0):
+    """Resolve a place to (local, projection-string), peeling `*_t` where `_t` is assigned exactly
+    once from `&Q` (so `discr(*_t)` and `discr(Q)` share one memo key)."""
+    l = place["l"]
+    proj = place.get("p") or []
+    if proj and proj[0] == "*" and depth < 4:
+        ds = fn.defs.get(l, [])
+        if len(ds) == 1 and ds[0][2] == "assign" and ds[0][3][2]["k"] in ("ref", "cfd"):
+            inner = ds[0][3][2]["p"]
+            b = _base_of(fn, inner, depth + 1)
+            rest = proj[1:]
+            return (b[0], b[1] + (repr(rest) if rest else ""))
+        if len(ds) == 1 and ds[0][2] == "assign" and ds[0][3][2]["k"] == "use":
+            ip = core.op_place(ds[0][3][2]["o"])
+            if ip is not None and not ip.p:
+                return _base_of(fn, {"l": ip.l, "p": proj}, depth + 1)
+    return (l, repr(proj) if proj else "")
+
+
+def _kill_memo(env, local):
+    for key in [key for key in env if isinstance(key, tuple) and key[0] == "discr" and key[1] == local]:
+        env.pop(key, None)
+
+
+def _apply_stmts(fn, blk, env):
     for st in blk["s"]:
+        if st[0] == "DEAD":
+            l = st[1]
+            env.pop(l, None)
+            env.pop(("dsrc", l), None)
+            env.pop(("denum", l), None)
+            env.pop(("bsrc", l), None)
+            _kill_memo(env, l)
+            continue
         if st[0] != "A":
             continue
         dl = st[1]["l"]
-        if st[1].get("p"):
-            continue
         rv = st[2]
         k = rv["k"]
+        _kill_memo(env, dl)
+        if k == "ref" and rv.get("m") == "mut":
+            _kill_memo(env, rv["p"]["l"])
+        if st[1].get("p"):
+            continue
+        env.pop(("dsrc", dl), None)
+        env.pop(("bsrc", dl), None)
         val = None
-        if k == "use":
+        if k == "discr":
+            base = _base_of(fn, rv["p"])
+            env[("dsrc", dl)] = base
+            if rv.get("e"):
+                env[("denum", dl)] = tuple(sorted(rv["e"]["vs"].items()))
+                name = env.get(("discr",) + base)
+                if name is not None:
+                    for v, n in rv["e"]["vs"].items():
+                        if n == name:
+                            val = int(v)
+        elif k == "use":
             val = _operand_val(env, rv["o"])
+            p = core.op_place(rv["o"])
+            if p is not None and not p.p:
+                m = env.get(("discr", p.l, ""))
+                if m is not None:
+                    env[("discr", dl, "")] = m
+                bs = env.get(("bsrc", p.l))
+                if bs is not None:
+                    env[("bsrc", dl)] = bs
+        elif k == "agg" and rv["a"]["t"] == "adt" and rv["a"].get("v"):
+            adt = fn.prog.adts.get(rv["a"]["def"]) if fn.prog is not None else None
+            if rv["a"]["def"] in ("core::option::Option", "core::result::Result") or (adt and adt["kind"] == "Enum"):
+                env[("discr", dl, "")] = rv["a"]["v"]
         elif k == "bin":
             val = _binop(rv["op"], _operand_val(env, rv["a"]), _operand_val(env, rv["b"]))
         elif k == "un" and rv["op"] == "Not":
             v = _operand_val(env, rv["o"])
             val = (1 - v) if v in (0, 1) else None
+            p = core.op_place(rv["o"])
+            if p is not None and not p.p and env.get(("bsrc", p.l)) is not None:
+                b0, b1, nt, nf = env[("bsrc", p.l)]
+                env[("bsrc", dl)] = (b0, b1, nf, nt)
         if val is None:
             env.pop(dl, None)
         else:
             env[dl] = val
 
 
-def analyse(fn, load_blocks, domain, max_states=20000):
-    """load_blocks: {block: dest_local} for calls that load the state word.
-    domain: iterable of ints (an extra OTHER value stands for anything else).
-    Returns {block: set(frozenset(env.items()))} — environments at block *entry*."""
+def analyse(fn, load_blocks=None, domain=(), max_states=300000, avoid=(), start=0, marks=()):
+    """load_blocks: {block: dest_local} for calls that load a state word forked over `domain`.
+    Returns {block: set(frozenset(env.items()))} — environments at block *entry* (avoid blocks are
+    entered but not left)."""
     dom = list(domain) + [OTHER]
+    load_blocks = load_blocks or {}
+    avoid = set(avoid)
     at = {b: set() for b in range(fn.n)}
-    start = frozenset()
-    at[0].add(start)
-    work = deque([(0, start)])
+    start_env = frozenset()
+    at[start].add(start_env)
+    work = deque([(start, start_env)])
     nstates = 1
     while work:
         b, envf = work.popleft()
+        if b in avoid:
+            continue
         env = dict(envf)
         blk = fn.blocks[b]
-        _apply_stmts(blk, env)
+        if b in marks:
+            env[("mark",)] = 1          # ghost: "this path went through a marked block"
+        _apply_stmts(fn, blk, env)
         t = blk["t"]
         k = t["k"]
         outs = []
@@ -79,18 +164,39 @@ def analyse(fn, load_blocks, domain, max_states=20000):
                     for v in dom:
                         e2 = dict(env)
                         e2[load_blocks[b]] = v
+                        e2[("ghost", b)] = v      # survives StorageDead of the temp
                         outs.append((t["t"], e2))
                 else:
                     e2 = dict(env)
                     e2.pop(dl, None)
+                    e2.pop(("dsrc", dl), None)
+                    e2.pop(("bsrc", dl), None)
+                    _kill_memo(e2, dl)
+                    # a call that receives `&mut local` may change its variant
+                    for a in t["args"]:
+                        if "m" in a and not a["m"].get("p"):
+                            ml = a["m"]["l"]
+                            for (db, di, kind, data) in fn.defs.get(ml, []):
+                                if kind == "assign" and data[2]["k"] == "ref" and data[2].get("m") == "mut":
+                                    _kill_memo(e2, data[2]["p"]["l"])
+                    path = t["f"].get("path")
+                    if path in _BOOL_TESTS and t["args"] and not t["d"].get("p"):
+                        ap = t["args"][0].get("m") or t["args"][0].get("c")
+                        if ap is not None:
+                            # the argument is `&place`
+                            base = _base_of(fn, {"l": ap["l"], "p": ["*"] + (ap.get("p") or [])})
+                            nt, nf = _BOOL_TESTS[path]
+                            known = e2.get(("discr",) + base)
+                            if known is not None:
+                                e2[dl] = 1 if known == nt else 0
+                            else:
+                                e2[("bsrc", dl)] = (base[0], base[1], nt, nf)
                     outs.append((t["t"], e2))
         elif k == "switch":
             p = core.op_place(t["o"])
-            v = env.get(p.l) if (p is not None and not p.p) else None
-            if v is None:
-                for s in fn.succ[b]:
-                    outs.append((s, env))
-            else:
+            plain = p is not None and not p.p
+            v = env.get(p.l) if plain else None
+            if v is not None:
                 tgt = None
                 for val, tb in t["v"]:
                     if v != OTHER and int(val) == v:
@@ -98,6 +204,36 @@ def analyse(fn, load_blocks, domain, max_states=20000):
                 if tgt is None:
                     tgt = t["else"]
                 outs.append((tgt, env))
+            elif plain and env.get(("dsrc", p.l)) is not None and env.get(("denum", p.l)) is not None:
+                src = env[("dsrc", p.l)]
+                names = dict(env[("denum", p.l)])
+                listed = set()
+                for val, tb in t["v"]:
+                    e2 = dict(env)
+                    n = names.get(val)
+                    if n is not None:
+                        e2[("discr",) + src] = n
+                    listed.add(val)
+                    outs.append((tb, e2))
+                rest = [n for vv, n in names.items() if vv not in listed]
+                e2 = dict(env)
+                if len(rest) == 1:
+                    e2[("discr",) + src] = rest[0]
+                outs.append((t["else"], e2))
+            elif plain and env.get(("bsrc", p.l)) is not None:
+                b0, b1, nt, nf = env[("bsrc", p.l)]
+                for val, tb in t["v"]:
+                    e2 = dict(env)
+                    if val == "0":
+                        e2[("discr", b0, b1)] = nf
+                    outs.append((tb, e2))
+                e2 = dict(env)
+                if [val for val, _ in t["v"]] == ["0"]:
+                    e2[("discr", b0, b1)] = nt
+                outs.append((t["else"], e2))
+            else:
+                for s in fn.succ[b]:
+                    outs.append((s, env))
         else:
             for s in fn.succ[b]:
                 outs.append((s, env))
@@ -115,11 +251,9 @@ def analyse(fn, load_blocks, domain, max_states=20000):
 
 
 def values_at(at, block, local):
-    """Possible values of `local` at entry of `block` (None in the set = unknown)."""
     out = set()
     for envf in at.get(block, ()):
-        env = dict(envf)
-        out.add(env.get(local))
+        out.add(dict(envf).get(local))
     return out
 
 
@@ -128,6 +262,42 @@ def values_at_term(fn, at, block, local):
     out = set()
     for envf in at.get(block, ()):
         env = dict(envf)
-        _apply_stmts(fn.blocks[block], env)
+        _apply_stmts(fn, fn.blocks[block], env)
         out.add(env.get(local))
     return out
+
+
+def must_pass_ps(fn, through, targets, start=0):
+    """Path-sensitive must-pass-through: no feasible path (under this abstraction) reaches a target
+    block from `start` without entering a `through` block."""
+    through = set(through)
+    tg = set(targets) - through
+    if not tg:
+        return True
+    try:
+        at = analyse(fn, avoid=through, start=start)
+    except RuntimeError:
+        return fn.must_pass(through, tg, start=start)
+    return not any(at[b] for b in tg)
+
+
+def reachable_ps(fn, start, avoid=()):
+    try:
+        at = analyse(fn, avoid=avoid, start=start)
+    except RuntimeError:
+        return fn.reachable_from([start], avoid=avoid)
+    return {b for b in at if at[b]}
+
+
+def reaches_after_mark(fn, marks, targets):
+    """Is there a feasible path entry -> (a marked block) -> ... -> a target block?"""
+    marks = set(marks)
+    try:
+        at = analyse(fn, marks=marks)
+    except RuntimeError:
+        return bool(fn.reachable_from(list(marks)) & set(targets))
+    for b in targets:
+        for envf in at.get(b, ()):
+            if (("mark",), 1) in envf:
+                return True
+    return False
